@@ -157,7 +157,10 @@ class _ExecutorFlags:
         with self.shutdown_lock:
             self.shutdown = True
             if kill_workers is not None:
-                self.kill_workers = kill_workers
+                # A request to kill the workers is not undone by a later
+                # shutdown call that does not ask for it (e.g. the one issued
+                # when leaving a `with executor:` block).
+                self.kill_workers = self.kill_workers or kill_workers
 
     def flag_as_broken(self, broken):
         with self.shutdown_lock:
